@@ -12,6 +12,9 @@ oracle's conditional state.
                       bin -> other modes in refsim's conditional state; post-selected value likewise (cross-backend with gaussian)
   bosonic_rejection   bosonic homodyne/heterodyne on multi-peak states: proposal (choice p, normal mean/cov) and the acceptance
                       threshold of the rejection sampler are exactly those of the Born density (threshold probed from both sides)
+  bosonic_conditional bosonic MeasureThreshold (forced click / no click), post-selected homodyne / heterodyne on mixtures of Gaussians
+                      (cat, Fock, Gaussian modes): P(no click) handed to the sampler and the whole post-measurement mixture (moments,
+                      Wigner function at generated points) == the POVM element applied term by term by the oracle
   gaussian_pnr_args   gaussian MeasureFock / MeasureThreshold: reduced mean/cov handed to thewalrus == refsim; sample layout
   layout              several measurements in one program, unsorted measured modes: Result.samples columns in ascending mode
                       order, samples_dict[mode], RegRef.val all carry the (forced, tagged) outcome of that mode
@@ -37,9 +40,11 @@ ASSUMPTIONS = [
     "states vs refsim at 5e-3 (truncation + grid); prior energies bounded so that the tail weight is < 1e-6",
     "internal randomness of thewalrus' hafnian/torontonian samplers is not examined: only the arguments handed to them",
     "bosonic rejection sampler: verified per proposal (distribution parameters and acceptance threshold), not by statistics",
+    "bosonic conditional states (hbar = 2): oracle = weights/means/covs of the pre-measurement state (read from a run without the measurement; "
+    "that state is C01's business) with the Gaussian POVM element applied to every term; 1e-7 (2e-5 for the eps-POVM of homodyne), scaled by sum|w|",
 ]
 REQUIRED_LABELS = {"all": ["type:homodyne", "type:heterodyne", "type:fock", "backend:gaussian", "backend:fock", "backend:bosonic",
-                           "angle_nonzero", "unsorted_measured_modes", "select", "multi_peak"]}
+                           "angle_nonzero", "unsorted_measured_modes", "select", "multi_peak", "threshold_click", "threshold_no_click", "type:threshold"]}
 
 EPS2 = (2e-4) ** 2
 
@@ -65,10 +70,48 @@ def gd_case(draw):
     m = draw(st.integers(0, n - 1))
     phi = draw(gen.angle()) if kind == "homodyne" else 0.0
     delta = [draw(gen.fl(-1.5, 1.5)), draw(gen.fl(-1.5, 1.5))]
-    return {"n": n, "hbar": hbar, "prior": prior, "kind": kind, "mode": m, "phi": phi, "delta": delta}
+    return {"n": n, "hbar": hbar, "prior": prior, "kind": kind, "mode": m, "phi": phi, "delta": delta, "select": draw(st.integers(0, 2)) == 0}
+
+
+def check_gd_select(ctx, case):
+    """post-selected variant: the outcome (Born mean + delta) is passed as ``select``; the state must be the conditional state of that value"""
+    n, hbar, prior, kind, m, phi = case["n"], case["hbar"], case["prior"], case["kind"], case["mode"], case["phi"]
+    ref = spec.ref_run(n, prior, 2.0)
+    others = [j for j in range(n) if j != m]
+    corr = float(np.max(np.abs(ref.V[np.ix_([m, m + n], [j for o in others for j in (o, o + n)])]))) if others else 0.0
+    labels = ["backend:gaussian", "type:" + kind, "select"] + (["angle_nonzero"] if phi != 0 else [])
+    if kind == "homodyne":
+        value2 = ref.homodyne_dist(phi, m)[0] + case["delta"][0]
+        sel = value2 * np.sqrt(hbar / 2)
+        op = ["MeasureHomodyne", [phi], [m], {"select": float(sel)}]
+        ref.condition_homodyne(phi, value2, m, noise=EPS2)
+    else:
+        mu_o, _ = ref.heterodyne_dist(m)
+        out = mu_o + np.array(case["delta"])
+        sel = complex(out[0], out[1]) / 2
+        op = ["MeasureHeterodyne", [], [m], {"select": {"re": sel.real, "im": sel.imag}}]
+        ref.condition_heterodyne(sel, m)
+    try:
+        with RngSpy(seed=3) as spy:
+            res = sfrun.run("gaussian", n, prior + [op], hbar)
+    except Exception as exc:  # pylint: disable=broad-except
+        ctx.note(case, True, labels)
+        return ctx.crash(exc, "gaussian.%s.select" % kind)
+    ctx.note(case, nontrivial=corr > 1e-3, labels=labels)
+    got = np.asarray(res.samples)
+    if got.shape != (1, 1) or abs(got[0, 0] - sel) > 1e-9 * (1 + abs(sel)):
+        return ctx.fail("gaussian.%s.select_returned_value" % kind, "Result.samples = %r for select=%r" % (got.tolist(), sel))
+    mu, V, _ = sfrun.moments_of(res.state, "gaussian", hbar)
+    mu2, V2 = mu / np.sqrt(hbar / 2), V / (hbar / 2)
+    d = max(float(np.max(np.abs(mu2 - ref.mu))), float(np.max(np.abs(V2 - ref.V))))
+    if d > _tol(ref.V, 2e-5 if kind == "homodyne" else 1e-8):
+        return ctx.fail("gaussian.%s.select_conditional_state" % kind, "state after post-selection on %r differs from the conditional state of the reference by %.3g" % (sel, d))
+    return None
 
 
 def check_gd(ctx, case):
+    if case.get("select"):
+        return check_gd_select(ctx, case)
     n, hbar, prior, kind, m, phi = case["n"], case["hbar"], case["prior"], case["kind"], case["mode"], case["phi"]
     ref = spec.ref_run(n, prior, 2.0)  # backend works in hbar=2 units internally; the oracle too
     others = [j for j in range(n) if j != m]
@@ -542,6 +585,221 @@ def check_lo(ctx, case):
     return None
 
 
+# ---------------------------------------------------------------------------------------------
+# bosonic conditional states: threshold detection (click / no click), post-selected homodyne and heterodyne
+# ---------------------------------------------------------------------------------------------
+@st.composite
+def bc_case(draw):
+    n = draw(st.integers(2, 3))
+    preps = []
+    nong = 0
+    for j in range(n):
+        kind = draw(st.sampled_from(["Catstate", "Fock", "Squeezed", "Coherent", "DisplacedSqueezed", "Squeezed"]))
+        if kind in ("Catstate", "Fock") and nong >= 2:
+            kind = "DisplacedSqueezed"
+        if kind == "Catstate":
+            nong += 1
+            preps.append(["Catstate", [draw(gen.fl(0.5, 1.3)), draw(st.sampled_from([0.0, 1.0, 0.5]))], [j], {}])
+        elif kind == "Fock":
+            nong += 1
+            preps.append(["Fock", [1], [j], {}])
+        else:
+            preps.append([kind, draw(gen.op_params(kind, "ps")), [j], {}])
+    gates = draw(gen.op_list(n, ["BSgate", "BSgate", "S2gate", "Dgate", "Rgate", "Sgate"], "ps", 1, 4))
+    kind = draw(st.sampled_from(["threshold", "threshold", "homodyne", "heterodyne"]))
+    k = draw(st.integers(1, n - 1)) if kind == "threshold" else 1
+    modes = list(draw(st.permutations(list(range(n))))[:k])
+    return {"n": n, "prior": preps + gates, "kind": kind, "modes": modes, "outcomes": [draw(st.integers(0, 1)) for _ in modes], "phi": draw(gen.angle()),
+            "delta": [draw(gen.fl(-1.0, 1.0)), draw(gen.fl(-1.0, 1.0))], "points": [[draw(gen.fl(-2.0, 2.0)) for _ in range(2 * n)] for _ in range(3)]}
+
+
+def _mix_condition(w, mus, covs, m, M, v, h=2.0):
+    """project mode m of the mixture sum_i w_i G(mu_i, V_i) (xpxp order, complex means allowed) on the Gaussian POVM element with
+    covariance M centred at v; the mode is left in vacuum.  Returns (unnormalised weights, means, covs)."""
+    K, d = mus.shape
+    B = [2 * m, 2 * m + 1]
+    A = [i for i in range(d) if i not in B]
+    w2 = np.zeros(K, complex)
+    mus2 = np.zeros((K, d), complex)
+    covs2 = np.zeros((K, d, d))
+    for i in range(K):
+        VB = covs[i][np.ix_(B, B)] + M
+        Si = np.linalg.inv(VB)
+        C = covs[i][np.ix_(A, B)]
+        G = C @ Si
+        dv = np.asarray(v, complex) - mus[i][B]
+        w2[i] = w[i] * np.exp(-0.5 * dv @ Si @ dv) / np.sqrt(np.linalg.det(2 * np.pi * VB))
+        mus2[i][A] = mus[i][A] + G @ dv
+        covs2[i][np.ix_(A, A)] = covs[i][np.ix_(A, A)] - G @ C.T
+        covs2[i][np.ix_(B, B)] = h / 2 * np.eye(2)
+    return w2, mus2, covs2
+
+
+def _mix_trace_to_vacuum(w, mus, covs, m, h=2.0):
+    d = mus.shape[1]
+    B = [2 * m, 2 * m + 1]
+    A = [i for i in range(d) if i not in B]
+    mus2 = mus.copy()
+    mus2[:, B] = 0
+    covs2 = np.zeros_like(covs)
+    for i in range(len(w)):
+        covs2[i][np.ix_(A, A)] = covs[i][np.ix_(A, A)]
+        covs2[i][np.ix_(B, B)] = h / 2 * np.eye(2)
+    return np.array(w, complex), mus2, covs2
+
+
+def _mix_wigner(w, mus, covs, x):
+    tot = 0j
+    for wk, mk, ck in zip(w, mus, covs):
+        dv = x - mk
+        tot += wk * np.exp(-0.5 * dv @ np.linalg.inv(ck) @ dv) / np.sqrt(np.linalg.det(2 * np.pi * ck))
+    return tot
+
+
+def _mix_moments(w, mus, covs):
+    mean = np.einsum("i,ij->j", w, mus)
+    second = np.einsum("i,ijk->jk", w, covs + np.einsum("ij,ik->ijk", mus, mus))
+    return np.real(mean), np.real(second - np.outer(mean, mean))
+
+
+def _mix_of(state):
+    w = np.asarray(state.weights(), complex)
+    mus = np.asarray(state.means(), complex)
+    covs = np.asarray(state.covs())
+    covs = np.array(np.broadcast_to(covs, (len(w),) + covs.shape[1:]).real)
+    return w, mus, covs
+
+
+def check_bc(ctx, case):
+    import itertools
+
+    n, prior, kind, modes, phi = case["n"], case["prior"], case["kind"], case["modes"], case["phi"]
+    h = 2.0
+    labels = ["backend:bosonic", "type:" + kind, "bosonic_conditional"]
+    try:
+        pre = sfrun.run("bosonic", n, prior, h).state
+    except sfrun.Rejected:
+        ctx.note(case, False, ["rejected:bosonic"])
+        return None
+    except Exception as exc:  # pylint: disable=broad-except
+        ctx.note(case, True, labels)
+        return ctx.crash(exc, "bosonic.prior")
+    w0, mus0, covs0 = _mix_of(pre)
+    if len(w0) > 1:
+        labels.append("multi_peak")
+    scale = float(np.sum(np.abs(w0)))
+    vac = h / 2 * np.eye(2)
+    seen = []
+
+    if kind == "threshold":
+        def policy(call):
+            if call.name == "choice":
+                pp = np.array(call.kwargs.get("p"), float)
+                want = case["outcomes"][min(len(seen), len(case["outcomes"]) - 1)]
+                out = want if pp[want] > 1e-3 else 1 - want
+                seen.append((pp, out))
+                return out
+            return None
+
+        op = ["MeasureThreshold", [], modes, {}]
+    else:
+        policy = None
+        m = modes[0]
+        if kind == "homodyne":
+            # select = Born mean of x_phi + delta
+            mean0, _ = _mix_moments(w0, mus0, covs0)
+            xm = np.cos(phi) * mean0[2 * m] + np.sin(phi) * mean0[2 * m + 1]
+            sel = float(xm + case["delta"][0])
+            op = ["MeasureHomodyne", [phi], [m], {"select": sel}]
+        else:
+            mean0, _ = _mix_moments(w0, mus0, covs0)
+            sel = complex(mean0[2 * m] + case["delta"][0], mean0[2 * m + 1] + case["delta"][1]) / 2
+            op = ["MeasureHeterodyne", [], [m], {"select": {"re": sel.real, "im": sel.imag}}]
+    try:
+        with RngSpy(seed=5, policy=policy) as spy:
+            res = sfrun.run("bosonic", n, prior + [op], h)
+    except Exception as exc:  # pylint: disable=broad-except
+        ctx.note(case, True, labels)
+        return ctx.crash(exc, "bosonic." + kind)
+    # ---- oracle
+    if kind == "threshold":
+        if len(seen) != len(modes):
+            ctx.note(case, True, labels)
+            return ctx.fail("bosonic.threshold.sampler_calls", "expected %d np.random.choice calls for modes %s, saw %d" % (len(modes), modes, len(seen)))
+        match = None
+        for order in itertools.permutations(range(len(modes))):
+            w, mus, covs = w0.copy(), mus0.copy(), covs0.copy()
+            ok = True
+            for j, pos in enumerate(order):
+                m = modes[pos]
+                wc, musc, covsc = _mix_condition(w, mus, covs, m, vac, [0.0, 0.0], h)
+                wc = wc * 2 * np.pi * h  # <0|rho|0> of each term
+                P0 = float(np.real(np.sum(wc)))
+                if abs(seen[j][0][0] - P0) > 1e-7 * max(1.0, scale * 1e-8) + 1e-7:
+                    ok = False
+                    break
+                if seen[j][1] == 0:
+                    w, mus, covs = wc / P0, musc, covsc
+                else:
+                    wt, must, covst = _mix_trace_to_vacuum(w, mus, covs, m, h)
+                    w = np.concatenate([wt, -wc]) / (1 - P0)
+                    mus = np.concatenate([must, musc])
+                    covs = np.concatenate([covst, covsc])
+            if ok:
+                match = ([modes[pos] for pos in order], w, mus, covs)
+                break
+        outs = [o for _, o in seen]
+        if any(outs):
+            labels.append("threshold_click")
+        if not all(outs):
+            labels.append("threshold_no_click")
+        ctx.note(case, nontrivial=any(outs), labels=labels)
+        if match is None:
+            return ctx.fail("bosonic.threshold.born_distribution", "no order of the measured modes %s reproduces the vacuum probabilities handed to the sampler (%s)" % (modes, [float(pp[0]) for pp, _ in seen]))
+        order_modes, w, mus, covs = match
+        per_mode = dict(zip(order_modes, outs))
+        for m_ in modes:
+            v = res.samples_dict.get(m_)
+            if v is None or int(np.ravel(v[-1])[0]) != per_mode[m_]:
+                return ctx.fail("bosonic.threshold.samples_dict", "samples_dict[%d] = %r, the outcome drawn for that mode is %d" % (m_, v, per_mode[m_]))
+    else:
+        ctx.note(case, nontrivial=True, labels=labels + ["select"] + (["angle_nonzero"] if kind == "homodyne" and phi != 0 else []))
+        m = modes[0]
+        if kind == "homodyne":
+            # rotate the frame by -phi (x_phi -> x), project on x = sel with the documented finite squeezing, rotate back is not needed:
+            # the measured mode ends in vacuum and the other modes are not touched by the local rotation
+            c, s_ = np.cos(phi), np.sin(phi)
+            R = np.eye(2 * n)
+            R[np.ix_([2 * m, 2 * m + 1], [2 * m, 2 * m + 1])] = np.array([[c, s_], [-s_, c]])
+            mus = mus0 @ R.T
+            covs = np.array([R @ cv @ R.T for cv in covs0])
+            M = h / 2 * np.diag([EPS2, 1 / EPS2])
+            w, mus, covs = _mix_condition(w0, mus, covs, m, M, [sel, 0.0], h)
+        else:
+            w, mus, covs = _mix_condition(w0, mus0, covs0, m, vac, [np.sqrt(2 * h) * sel.real, np.sqrt(2 * h) * sel.imag], h)
+        tot = np.sum(w)
+        if abs(tot) < 1e-12 * scale:
+            return None
+        w = w / tot
+    # ---- compare the post-measurement state
+    wb, musb, covsb = _mix_of(res.state)
+    if abs(np.sum(wb) - 1) > 1e-7 * max(1.0, 1e-8 * float(np.sum(np.abs(wb)))) + 1e-9:
+        return ctx.fail("bosonic.%s.weights" % kind, "weights sum to %r after the measurement" % complex(np.sum(wb)))
+    tolm = (2e-5 if kind == "homodyne" else 1e-7) * (1 + float(np.max(np.abs(covs)))) * max(1.0, 1e-6 * float(np.sum(np.abs(w))))
+    m1, V1 = _mix_moments(wb, musb, covsb)
+    m2, V2 = _mix_moments(w, mus, covs)
+    d = max(float(np.max(np.abs(m1 - m2))), float(np.max(np.abs(V1 - V2))))
+    if d > tolm:
+        return ctx.fail("bosonic.%s.conditional_state" % kind, "means / covariance after %s on %s differ from the conditional state of the reported outcome by %.3g" % (kind, modes, d))
+    for x in case["points"] + [[0.0] * (2 * n)]:
+        x = np.array(x)
+        a, b = _mix_wigner(wb, musb, covsb, x), _mix_wigner(w, mus, covs, x)
+        peak = float(np.sum(np.abs(w))) / (2 * np.pi * h / 2) ** n
+        if abs(a - b) > (2e-5 if kind == "homodyne" else 1e-7) * max(1.0, peak):
+            return ctx.fail("bosonic.%s.conditional_wigner" % kind, "Wigner function after %s on %s differs from the conditional state of the reported outcome by %.3g at %s" % (kind, modes, abs(a - b), np.round(x, 3).tolist()))
+    return None
+
+
 SUBS = [
     Sub("gaussian_dyne", check=check_gd, strategy=lambda ctx: gd_case(), examples={"quick": 500, "thorough": 5000}, shards={"quick": 1, "thorough": 16},
         rule="gaussian homodyne/heterodyne: sampler parameters and forced-outcome conditional state vs refsim"),
@@ -551,6 +809,9 @@ SUBS = [
         rule="fock homodyne: grid distribution moments, forced bin / select -> conditional state vs refsim"),
     Sub("bosonic_rejection", check=check_br, strategy=lambda ctx: br_case(), examples={"quick": 250, "thorough": 2500}, shards={"quick": 1, "thorough": 16},
         rule="bosonic homodyne/heterodyne rejection sampler on cat/Fock/Gaussian states: proposal parameters and acceptance threshold"),
+    Sub("bosonic_conditional", check=check_bc, strategy=lambda ctx: bc_case(), examples={"quick": 250, "thorough": 2500}, shards={"quick": 1, "thorough": 16},
+        rule="bosonic MeasureThreshold (forced click / no click, 1..2 modes), post-selected homodyne / heterodyne on cat/Fock/Gaussian mixtures: vacuum "
+             "probability handed to the sampler and the post-measurement mixture (moments + Wigner function at generated points) vs the POVM applied term by term"),
     Sub("gaussian_pnr_args", check=check_gp, strategy=lambda ctx: gp_case(), examples={"quick": 400, "thorough": 4000}, shards={"quick": 1, "thorough": 16},
         rule="gaussian MeasureFock/MeasureThreshold: reduced mean/cov handed to thewalrus, sample shape and column order"),
     Sub("layout", check=check_lo, strategy=lambda ctx: lo_case(), examples={"quick": 300, "thorough": 3000}, shards={"quick": 1, "thorough": 16},
